@@ -678,7 +678,7 @@ func c05Cases(c runCfg) ([]*scratch.Pkg, []string, map[string]interface{}) {
 		}
 		sp := &dialect.Spec{CompParams: map[string]dialect.Param{}}
 		bf := baseForms[i%len(baseForms)]
-		sp.ServerURL, sp.ServerVar = bf.Server, bf.Vars
+		sp.ServerURL, sp.ServerVar, sp.MoreServers = bf.Server, bf.Vars, bf.More
 		for _, raw := range templates {
 			pi := &dialect.PathItem{Raw: raw}
 			for j, seg := range strings.Split(strings.TrimPrefix(raw, "/"), "/") {
